@@ -1450,3 +1450,260 @@ Proof.
     + intros acts'' s5 _. apply bind_rel; [apply seg_fp_trans| |intros; apply seg_fp_refl].
       destruct succ as [cc|]; [|apply seg_fp_refl]. apply bind_rel; [apply seg_fp_trans|fp_eq|intros; apply seg_fp_refl].
 Qed.
+
+(* recorded actions whose inverse writes only inside R *)
+Definition basic_ok (R : Z -> nat -> Prop) (b : basic) : Prop :=
+  match b with
+  | BAddNode _ _ _ => False
+  | BDelNode _ _ (Some p) => px_in R p
+  | BUpdSeg _ p _ => px_in R p
+  | _ => True
+  end.
+Fixpoint act_ok (R : Z -> nat -> Prop) (a : action) : Prop :=
+  match a with
+  | ABasic b => basic_ok R b
+  | AGroup l => (fix go (l : list action) : Prop := match l with [] => True | x :: r => act_ok R x /\ go r end) l
+  end.
+Fixpoint acts_ok (R : Z -> nat -> Prop) (l : list action) : Prop :=
+  match l with [] => True | x :: r => act_ok R x /\ acts_ok R r end.
+Lemma act_ok_group R l : act_ok R (AGroup l) = acts_ok R l.
+Proof. cbn. induction l as [|x r IH]; [reflexivity|]. now rewrite IH. Qed.
+Lemma acts_ok_app R l1 l2 : acts_ok R (l1 ++ l2) <-> acts_ok R l1 /\ acts_ok R l2.
+Proof. induction l1 as [|x r IH]; cbn; [tauto|]. rewrite IH. tauto. Qed.
+Lemma acts_ok_snoc R l x : acts_ok R l -> act_ok R x -> acts_ok R (l ++ [x]).
+Proof. intros H1 H2. apply acts_ok_app. cbn. auto. Qed.
+Lemma acts_ok_rev R l : acts_ok R l -> acts_ok R (rev l).
+Proof. induction l as [|x r IH]; cbn; [auto|]. intros [H1 H2]. apply acts_ok_snoc; auto. Qed.
+
+Lemma seg_fp_inv_basic R st b : basic_ok R b -> seg_fp R st (rstate (inv_basic st b)).
+Proof.
+  destruct b as [n a px|n saved px|u v a|u v saved|n prev new|n px added|start oldT newT oldL newL]; cbn [inv_basic basic_ok]; intros Hb.
+  - contradiction.
+  - apply seg_fp_add_node. intros p ->. exact Hb.
+  - fp_eq.
+  - fp_eq.
+  - fp_eq.
+  - now apply seg_fp_upd_seg.
+  - fp_eq.
+Qed.
+
+Lemma seg_fp_inv_action R : forall a st, act_ok R a -> seg_fp R st (rstate (inv_action st a)).
+Proof.
+  fix IH 1. intros a st. destruct a as [b|l].
+  - cbn [inv_action act_ok]. intros Hb. apply bind_rel; [apply seg_fp_trans|now apply seg_fp_inv_basic|intros; apply seg_fp_refl].
+  - rewrite act_ok_group. cbn [inv_action]. intros Hl.
+    apply bind_rel; [apply seg_fp_trans| |intros; apply seg_fp_refl].
+    revert st Hl. induction l as [|x r IHl]; intros st Hl; [apply seg_fp_refl|].
+    destruct Hl as [Hx Hr]. apply bind_rel; [apply seg_fp_trans|now apply IHl|]. intros accr s _.
+    apply bind_rel; [apply seg_fp_trans|now apply IH|intros; apply seg_fp_refl].
+Qed.
+
+Lemma seg_fp_rollback R l s : acts_ok R l -> seg_fp R s (rstate (rollback l s)).
+Proof.
+  revert s; induction l as [|x r IH]; intros s Hl; cbn [rollback]; [apply seg_fp_refl|].
+  destruct Hl as [Hx Hr]. apply bind_rel; [apply seg_fp_trans|now apply seg_fp_inv_action|]. intros _i s1 _. now apply IH.
+Qed.
+
+(* what the sub-actions record *)
+Lemma upd_track_out R st s t l b st' : do_upd_track st s t l = Ok b st' -> basic_ok R b.
+Proof.
+  unfold do_upd_track. destruct (negb (has_node st s)); [discriminate|]. destruct (zattr st s KTrack); [|discriminate].
+  destruct (negb (trk_act (ft st))); [intros H; injection H as <- _; exact I|].
+  destruct (walk _ _ _ _ _ _ _ _ _) as [[[st1 tn] ln]|]; [|discriminate].
+  destruct (match (if lin_act (ft st) then l else None) with Some _ => _ | None => _ end). intros H; injection H as <- _; exact I.
+Qed.
+Lemma del_edge_out R st u v b st' : do_del_edge st u v = Ok b st' -> basic_ok R b.
+Proof. unfold do_del_edge. destruct (negb (has_edge st u v)); [discriminate|]. intros H; injection H as <- _; exact I. Qed.
+Lemma add_edge_out R st u v a b st' : do_add_edge st u v a = Ok b st' -> basic_ok R b.
+Proof.
+  unfold do_add_edge. destruct (negb (has_node st u)); [discriminate|]. destruct (negb (has_node st v)); [discriminate|].
+  intros H; injection H as <- _; exact I.
+Qed.
+Lemma del_node_out R st n p b st' : do_del_node st n (Some p) = Ok b st' -> px_in R p -> basic_ok R b.
+Proof.
+  unfold do_del_node. destruct (lookup n (nodes (g st))); [|discriminate].
+  destruct (set_pixels st p 0) as [[] st1|]; [|discriminate]. cbn [bind ft upd_g].
+  destruct (negb (trk_act (ft st1))); intros H; injection H as <- _; auto.
+Qed.
+Lemma upd_seg_out R st n p added b st' : do_upd_seg st n p added = Ok b st' -> px_in R p -> basic_ok R b.
+Proof. intros H Hp. apply do_upd_seg_ok in H as H'. unfold do_upd_seg in H. destruct (set_pixels _ _ _) as [[] st1|]; [|discriminate]. cbn [bind] in H.
+  destruct (negb (has_node st1 n) && _); [discriminate|]. destruct (negb (has_node st1 n) && _); [discriminate|]. injection H as <- _. exact Hp. Qed.
+
+Lemma udn_preds_out R n ps s acc acts s' : udn_preds n ps s acc = Ok acts s' -> acts_ok R acc -> acts_ok R acts.
+Proof.
+  revert s acc; induction ps as [|p r IH]; intros s acc H Hacc; cbn [udn_preds] in H; [injection H as <- _; exact Hacc|].
+  ok_step H acc1 s1 H1. ok_step H b s2 H2. eapply IH; [exact H|]. apply acts_ok_snoc; [|eapply del_edge_out; eauto].
+  destruct (length (successors s p) =? 2)%nat; [|injection H1 as <- _; exact Hacc].
+  destruct (remove1 n (successors s p)); [discriminate|]. destruct (zattr s p KTrack); [|discriminate].
+  ok_step H1 b0 s0 H0. injection H1 as <- _. apply acts_ok_snoc; [exact Hacc|eapply upd_track_out; eauto].
+Qed.
+Lemma udn_succs_out R n cs s acc acts s' : udn_succs n cs s acc = Ok acts s' -> acts_ok R acc -> acts_ok R acts.
+Proof.
+  revert s acc; induction cs as [|c r IH]; intros s acc H Hacc; cbn [udn_succs] in H; [injection H as <- _; exact Hacc|].
+  ok_step H b s1 H1. eapply IH; [exact H|]. apply acts_ok_snoc; [exact Hacc|eapply del_edge_out; eauto].
+Qed.
+Lemma udn_orphans_out R os s acc acts s' : udn_orphans os s acc = Ok acts s' -> acts_ok R acc -> acts_ok R acts.
+Proof.
+  revert s acc; induction os as [|o r IH]; intros s acc H Hacc; cbn [udn_orphans] in H; [injection H as <- _; exact Hacc|].
+  destruct (zattr s o KTrack); [|discriminate]. ok_step H b s1 H1. eapply IH; [exact H|].
+  apply acts_ok_snoc; [exact Hacc|eapply upd_track_out; eauto].
+Qed.
+
+Lemma udn_core_out R st n p a s' : user_delete_node_core st n (Some p) = Ok a s' -> px_in R p -> act_ok R a.
+Proof.
+  unfold user_delete_node_core. intros H Hp. destruct (negb (has_node st n)); [discriminate|].
+  ok_step H acts1 s1 H1. apply (udn_preds_out R) in H1; [|exact I].
+  ok_step H acts2 s2 H2. apply (udn_succs_out R) in H2; [|exact H1].
+  ok_step H ao s3 H3. destruct ao as [acts3 orphans].
+  assert (A3 : acts_ok R acts3).
+  { destruct (zattr s2 n KTrack) as [T|]; [|discriminate]. destruct (track_neighbors s2 T (time_of s2 n)) as [s2' [pp cc]].
+    destruct pp as [pp|]; [destruct cc as [cc|]|].
+    - ok_step H3 b0 s4 H4. injection H3 as <- _ _. apply acts_ok_snoc; [exact H2|eapply add_edge_out; eauto].
+    - injection H3 as <- _ _. exact H2.
+    - injection H3 as <- _ _. exact H2. }
+  ok_step H acts4 s4 H4. apply (udn_orphans_out R) in H4; [|exact A3].
+  ok_step H b s5 H5. injection H as <- _. rewrite act_ok_group. apply acts_ok_snoc; [exact H4|]. cbn. eapply del_node_out; eauto.
+Qed.
+
+Lemma uus_groups_out R gs s acc acts s' : uus_groups gs s acc = Ok acts s' ->
+  (forall g, In g gs -> px_in R (fst g)) -> acts_ok R acc -> acts_ok R acts.
+Proof.
+  revert s acc; induction gs as [|[px old] r IH]; intros s acc H Hg Hacc; cbn [uus_groups] in H; [injection H as <- _; exact Hacc|].
+  assert (Hpx : px_in R px) by (apply (Hg (px, old)); now left).
+  assert (Hr : forall g, In g r -> px_in R (fst g)) by (intros g Hin; apply Hg; now right).
+  destruct (old =? 0); [eapply IH; eauto|].
+  destruct (match seg s with Some sg0 => mask_of sg0 (fst px) old | None => [] end).
+  - ok_step H a s1 H1. unfold user_delete_node in H1. apply top_wrap_false_ok in H1.
+    eapply IH; [exact H|exact Hr|]. apply acts_ok_snoc; [exact Hacc|eapply udn_core_out; eauto].
+  - ok_step H b s1 H1. eapply IH; [exact H|exact Hr|]. apply acts_ok_snoc; [exact Hacc|]. cbn. eapply upd_seg_out; eauto.
+Qed.
+
+Lemma seg_fp_uus_groups R gs s acc : (forall g, In g gs -> px_in R (fst g)) -> seg_fp R s (rstate (uus_groups gs s acc)).
+Proof.
+  revert s acc; induction gs as [|[px old] r IH]; intros s acc Hg; cbn [uus_groups]; [apply seg_fp_refl|].
+  assert (Hpx : px_in R px) by (apply (Hg (px, old)); now left).
+  assert (Hr : forall g, In g r -> px_in R (fst g)) by (intros g Hin; apply Hg; now right).
+  destruct (old =? 0); [now apply IH|].
+  destruct (match seg s with Some sg0 => mask_of sg0 (fst px) old | None => [] end).
+  - apply bind_rel; [apply seg_fp_trans| |intros; now apply IH].
+    unfold user_delete_node, top_wrap.
+    assert (Hc : seg_fp R s (rstate (user_delete_node_core s old (Some px)))) by (apply seg_fp_udn_core; intros s2 p _ E; injection E as <-; exact Hpx).
+    destruct (user_delete_node_core s old (Some px)) as [a0 s0|e0 s0]; exact Hc.
+  - apply bind_rel; [apply seg_fp_trans|now apply seg_fp_upd_seg|intros; now apply IH].
+Qed.
+
+Lemma seg_fp_uus_core R st nv groups T force :
+  (forall g, In g groups -> px_in R (fst g)) ->
+  (forall px0 o r, groups = (px0, o) :: r -> px_in R (fst px0, all_pixels groups)) ->
+  seg_fp R st (rstate (user_update_seg_core st nv groups T force)).
+Proof.
+  intros Hg Hall. unfold user_update_seg_core. destruct (seg st) eqn:Hs; [|apply seg_fp_refl].
+  destruct (negb (nv =? 0) && _ && has_node st nv && _); [apply seg_fp_refl|].
+  assert (Hfp := seg_fp_uus_groups R groups st [] Hg).
+  destruct (uus_groups groups st []) as [acts s1|e s1] eqn:Hu; cbn [bind rstate] in Hfp |- *; [|exact Hfp].
+  eapply seg_fp_trans; [exact Hfp|].
+  apply (uus_groups_out R) in Hu; [|exact Hg|exact I].
+  destruct groups as [|[px0 old0] gr] eqn:Eg; [apply seg_fp_refl|].
+  destruct (nv =? 0); [apply seg_fp_refl|].
+  fold (all_pixels ((px0, old0) :: gr)). set (allpx := all_pixels ((px0, old0) :: gr)). cbv zeta.
+  assert (Hpx : px_in R (fst px0, allpx)) by (eapply Hall; reflexivity).
+  destruct (has_node s1 nv).
+  - apply bind_rel; [apply seg_fp_trans|now apply seg_fp_upd_seg|intros; apply seg_fp_refl].
+  - match goal with |- context [user_add_node ?x1 ?x2 ?x3 ?x4 ?x5 ?x6] => 
+      assert (Hadd : seg_fp R s1 (rstate (user_add_node x1 x2 x3 x4 x5 x6)));
+      [|destruct (user_add_node x1 x2 x3 x4 x5 x6) as [x s2|e s2]] end.
+    { unfold user_add_node, top_wrap.
+      match goal with |- context [user_add_node_core ?x1 ?x2 ?x3 ?x4 ?x5] =>
+        assert (Hc := seg_fp_uan_core R x1 x2 x3 x4 x5); destruct (user_add_node_core x1 x2 x3 x4 x5) end;
+      cbn [rstate] in *; apply Hc; intros p E; injection E as <-; exact Hpx. }
+    + exact Hadd.
+    + cbn [rstate] in Hadd. destruct e; try exact Hadd.
+      assert (Hrb := seg_fp_rollback R (rev acts) s2 (acts_ok_rev R _ Hu)).
+      destruct (rollback (rev acts) s2); cbn [rstate] in *; eapply seg_fp_trans; eauto.
+Qed.
+
+(* ---- the caller restores the painted pixels ---- *)
+Lemma restore_same_shape t gs acc : same_shape (restore_groups t gs acc) acc.
+Proof.
+  unfold restore_groups. revert acc; induction gs as [|g r IH]; intros acc; cbn [fold_left]; [apply same_shape_refl|].
+  eapply same_shape_trans; [apply IH|]. apply (paint_same_shape acc t (snd (fst g)) (snd g)).
+Qed.
+
+Lemma restore_pointwise t gs acc x t' i : 0 <= t -> 0 <= t' ->
+  (forall g, In g gs -> In (Z.of_nat i) (snd (fst g)) -> snd g = x) ->
+  label_at (restore_groups t gs acc) t' i =
+    if (t' =? t) && existsb (fun g => memz (Z.of_nat i) (snd (fst g))) gs && (i <? length (frame_of acc t))%nat
+    then x else label_at acc t' i.
+Proof.
+  intros Ht Ht'. unfold restore_groups. revert acc; induction gs as [|g r IH]; intros acc Hx; cbn [fold_left existsb].
+  - now rewrite andb_false_r.
+  - fold (paint_arr acc t (snd (fst g)) (snd g)). rewrite IH by (intros g' Hg'; apply Hx; now right).
+    destruct (paint_same_shape acc t (snd (fst g)) (snd g)) as [_ Sh]. rewrite Sh.
+    rewrite label_at_paint by assumption.
+    destruct (t' =? t); cbn [andb]; [|reflexivity].
+    destruct (i <? length (frame_of acc t))%nat; [|now rewrite !andb_false_r]. rewrite !andb_true_r.
+    destruct (existsb (fun g0 => memz (Z.of_nat i) (snd (fst g0))) r); [now rewrite orb_true_r|]. rewrite orb_false_r.
+    destruct (memz (Z.of_nat i) (snd (fst g))) eqn:E; [|reflexivity]. apply Hx; [now left|now apply memz_In].
+Qed.
+
+(* two arrays of the same shape with the same labels are the same list *)
+Lemma arr_ext a b : same_shape a b -> (forall t i, 0 <= t -> label_at a t i = label_at b t i) -> a = b.
+Proof.
+  intros [Hl Hf] Hp. apply (nth_ext a b [] []); [exact Hl|]. intros k Hk.
+  assert (Hfk := Hf (Z.of_nat k)). unfold frame_of in Hfk. rewrite Nat2Z.id in Hfk.
+  apply (nth_ext _ _ 0 0); [exact Hfk|]. intros i Hi.
+  assert (H := Hp (Z.of_nat k) i ltac:(lia)). unfold label_at, frame_of in H. now rewrite Nat2Z.id in H.
+Qed.
+
+Lemma user_update_seg_err st nv groups T force e s : user_update_seg st nv groups T force = Err e s ->
+  s = rstate (user_update_seg_core st nv groups T force).
+Proof.
+  unfold user_update_seg. destruct (user_update_seg_core st nv groups T force) as [[a0 pl] s0|e0 s0]; [discriminate|].
+  intros H. now injection H as _ <-.
+Qed.
+
+(* C07: a stroke that raises - at any point, also after a partial rollback - leaves the previous array, bit for bit *)
+Theorem paint_error_restores st nv t idx T force e st' sg :
+  paint st nv t idx T force = Err e st' -> seg st = Some sg -> seg st' = Some sg.
+Proof.
+  unfold paint. intros H Hs. rewrite Hs in H. destruct (frame_ok sg t) eqn:Hf; cbn [negb] in H; [|injection H as _ <-; exact Hs].
+  set (groups := paint_groups sg t idx nv) in *. fold (all_pixels groups) in H.
+  set (painted := upd_seg st (Some (upd_frame (Z.to_nat t) (fun f => write_frame 0 f (all_pixels groups) nv) sg))) in *.
+  destruct (user_update_seg painted nv groups T force) as [a0 s0|e0 s0] eqn:Hu; [discriminate|]. injection H as _ <-.
+  apply user_update_seg_err in Hu.
+  assert (Ht0 : 0 <= t) by (apply frame_ok_range in Hf; lia).
+  set (R := fun (t' : Z) (i : nat) => t' = t /\ In (Z.of_nat i) (all_pixels groups)).
+  assert (Hg : forall g, In g groups -> px_in R (fst g)).
+  { intros g Hin i Hi. apply paint_groups_In in Hin as Hgi. destruct Hgi as (Hgt & _ & _). split; [exact Hgt|].
+    unfold all_pixels. apply in_flat_map. eauto. }
+  assert (Hall : forall px0 o r, groups = (px0, o) :: r -> px_in R (fst px0, all_pixels groups)).
+  { intros px0 o r Eg i Hi. cbn [fst snd] in *. split; [|exact Hi].
+    assert (Hin : In (px0, o) groups) by (rewrite Eg; now left). apply paint_groups_In in Hin. tauto. }
+  assert (Hfp := seg_fp_uus_core R painted nv groups T force Hg Hall). rewrite <- Hu in Hfp.
+  unfold seg_fp in Hfp. cbn [seg painted upd_seg] in Hfp. fold (paint_arr sg t (all_pixels groups) nv) in Hfp.
+  destruct Hfp as (sg2 & Hs2 & Sh2 & P2). rewrite Hs2. cbn [seg upd_seg]. f_equal.
+  assert (ShP := paint_same_shape sg t (all_pixels groups) nv).
+  apply arr_ext; [eapply same_shape_trans; [apply restore_same_shape|eapply same_shape_trans; eauto]|].
+  intros t' i Ht'.
+  rewrite (restore_pointwise t groups sg2 (label_at sg t i)); try assumption.
+  - assert (Hlen : length (frame_of sg2 t) = length (frame_of sg t)) by (destruct Sh2 as [_ S2]; destruct ShP as [_ SP]; now rewrite S2, SP).
+    rewrite Hlen.
+    destruct ((t' =? t) && existsb (fun g => memz (Z.of_nat i) (snd (fst g))) groups && (i <? length (frame_of sg t))%nat) eqn:Ec.
+    + apply andb_true_iff in Ec. destruct Ec as [Ec _]. apply andb_true_iff in Ec. destruct Ec as [E1 _]. apply Z.eqb_eq in E1. now subst.
+    + (* not restored: never written, or out of range *)
+      destruct (Z.eqb_spec t' t) as [->|Hne].
+      * cbn [andb] in Ec. destruct (Nat.ltb_spec i (length (frame_of sg t))) as [Hi|Hi].
+        -- rewrite andb_true_r in Ec.
+           assert (Hnot : ~ R t i).
+           { intros [_ Hin]. unfold all_pixels in Hin. apply in_flat_map in Hin. destruct Hin as (g & Hgin & Hp).
+             assert (existsb (fun g => memz (Z.of_nat i) (snd (fst g))) groups = true) by (apply existsb_exists; exists g; split; [exact Hgin|now apply memz_In]).
+             congruence. }
+           rewrite (P2 t i Ht' Hnot). rewrite label_at_paint by assumption.
+           assert (Em : memz (Z.of_nat i) (all_pixels groups) = false) by (apply memz_false; intros Hin; apply Hnot; split; [reflexivity|exact Hin]).
+           now rewrite Em, andb_false_r.
+        -- rewrite !label_at_overflow; [reflexivity|lia|lia].
+      * rewrite P2; [|exact Ht'|intros [E _]; contradiction]. rewrite label_at_paint by assumption.
+        destruct (Z.eqb_spec t' t); [contradiction|reflexivity].
+  - intros g Hgin Hp. apply paint_groups_In in Hgin. destruct Hgin as (_ & _ & Hgi). apply Hgi in Hp.
+    apply io_of_In in Hp. destruct Hp as (j & Hj & _ & _ & E & _). apply Nat2Z.inj in Hj. subst j. now symmetry.
+Qed.
